@@ -302,8 +302,13 @@ def _case(rng, tier):
 
 
 def cases(rng, tier):
-    for _ in range(64 if tier == "quick" else 1500):
+    n, nh, nt = (50, 8, 6) if tier == "quick" else (1300, 120, 50)
+    for _ in range(n):
         yield _case(rng, tier)
+    for j in range(nh):   # object histories (second run of a re-configured object)
+        yield c01._history(rng, tier, force="rate_fine" if j < 3 else None)
+    for _ in range(nt):   # nucleation at a tiny supercooling
+        yield c01._tiny(rng, tier)
 
 
 def widen(rng, tier):
